@@ -90,8 +90,22 @@ def _isinstance(v, t):
     return isinstance(v, ts)
 
 
+def _next(it, *default):
+    "next() on what the evaluator produced for a generator expression (it evaluates them eagerly, to a list) or on a real iterator"
+    if isinstance(it, list):
+        if it:
+            return it[0]
+        if default:
+            return default[0]
+        raise EvalRaised("StopIteration", "")
+    try:
+        return next(it, *default)
+    except StopIteration:
+        raise EvalRaised("StopIteration", "")
+
+
 _SAFE_BUILTINS: dict[str, Callable] = {
-    "isinstance": _isinstance, "bytes": bytes, "type": type, "callable": callable, "divmod": divmod, "round": round, "ord": ord, "chr": chr, "iter": iter, "next": next,
+    "isinstance": _isinstance, "bytes": bytes, "type": type, "callable": callable, "divmod": divmod, "round": round, "ord": ord, "chr": chr, "iter": iter, "next": _next,
     "len": len, "range": range, "str": str, "int": int, "bool": bool, "tuple": tuple, "list": list,
     "set": set, "frozenset": frozenset, "sorted": sorted, "max": max, "min": min, "abs": abs, "all": all,
     "any": any, "sum": sum, "enumerate": enumerate, "zip": zip, "reversed": reversed, "dict": dict, "map": map, "filter": filter,
@@ -170,13 +184,14 @@ class Evaluator:
         if isinstance(v, Obj):
             if n.attr in v.attrs:
                 return v.attrs[n.attr]
+            if n.attr == "__dict__":
+                return v.attrs   # the instance dictionary itself: stores through it are attribute stores
             if "__getattr__" in self.hooks:
                 return self.hooks["__getattr__"](v, n.attr)
             raise Unknown(f"abstract object {v!r} has no attribute {n.attr}")
         if isinstance(v, ClassRef) and "__classattr__" in self.hooks:
             return self.hooks["__classattr__"](v, n.attr)
-        if type(v).__name__ == "Arr" and n.attr in ("shape", "ndim", "size", "T", "tolist", "copy", "astype", "sum", "cumsum", "max", "min", "all", "any", "argmax", "argmin",
-                                                    "flatten", "ravel", "reshape", "item"):
+        if type(v).__name__ == "Arr" and not n.attr.startswith("_") and hasattr(type(v), n.attr) and n.attr not in ("data", "truth", "reduce_axis", "flat_list", "eq_elementwise"):
             return getattr(v, n.attr)
         for t, names in _SAFE_METHODS.items():
             if isinstance(v, t) and n.attr in names:
@@ -377,6 +392,29 @@ class Evaluator:
                 recv[k] = value
             except Exception as e:
                 raise Unknown(f"store {ast.unparse(target)[:60]}: {e}")
+        elif isinstance(target, ast.Subscript):
+            # store through an expression (`obj.__dict__['k'] = v`, `rows[i][j] = v`, `self.grid[k] = v`): the receiver is a container of the abstract run
+            recv = self.ev(target.value, env)
+            if not (isinstance(recv, (list, dict)) or type(recv).__name__ == "Arr"):
+                raise Unknown(f"store into {type(recv).__name__}")
+            if isinstance(target.slice, ast.Slice) and isinstance(recv, list):
+                k = slice(*(None if x is None else self.ev(x, env) for x in (target.slice.lower, target.slice.upper, target.slice.step)))
+                value = list(value)
+            else:
+                k = self.ev(target.slice, env)
+            try:
+                recv[k] = value
+            except (ValueError, IndexError, KeyError) as e:
+                if type(recv).__name__ == "Arr" or isinstance(e, IndexError):
+                    raise EvalRaised(type(e).__name__, f"{ast.unparse(target)[:60]}: {e}")
+                raise Unknown(f"store {ast.unparse(target)[:60]}: {e}")
+            except Exception as e:
+                raise Unknown(f"store {ast.unparse(target)[:60]}: {e}")
+        elif isinstance(target, ast.Attribute):
+            recv = self.ev(target.value, env)
+            if not isinstance(recv, Obj):
+                raise Unknown(f"attribute store on {type(recv).__name__}")
+            recv.attrs[target.attr] = value
         else:
             raise Unknown("binding target")
 
@@ -485,6 +523,27 @@ class Evaluator:
         for st in body:
             if isinstance(st, ast.Expr) and isinstance(st.value, ast.Constant):
                 continue
+            if isinstance(st, ast.Delete) and all(isinstance(t, (ast.Name, ast.Subscript)) for t in st.targets):
+                for t in st.targets:
+                    if isinstance(t, ast.Name):
+                        if t.id not in env:
+                            raise EvalRaised("NameError", f"name '{t.id}' is not defined")
+                        del env[t.id]
+                        continue
+                    recv = self.ev(t.value, env)
+                    if not isinstance(recv, (list, dict)):
+                        raise Unknown(f"del on {type(recv).__name__}")
+                    if isinstance(t.slice, ast.Slice):
+                        k = slice(*(None if x is None else self.ev(x, env) for x in (t.slice.lower, t.slice.upper, t.slice.step)))
+                    else:
+                        k = self.ev(t.slice, env)
+                    try:
+                        del recv[k]
+                    except (KeyError, IndexError) as e:
+                        raise EvalRaised(type(e).__name__, f"{ast.unparse(t)[:60]}: {e}")
+                    except Exception as e:
+                        raise Unknown(f"del {ast.unparse(t)[:60]}: {e}")
+                continue
             if isinstance(st, ast.Pass):
                 continue
             if isinstance(st, ast.Return):
@@ -591,6 +650,9 @@ class Evaluator:
                     continue  # an assertion about values the fragment does not track
                 if not holds:
                     raise EvalRaised("AssertionError", ast.unparse(st.test)[:80])
+                continue
+            if isinstance(st, ast.Expr):
+                self.ev(st.value, env)   # an expression statement: evaluated for its effects on the abstract run's own objects (a call the evaluator cannot follow is Unknown)
                 continue
             raise Unknown(f"statement kind {type(st).__name__} outside the fragment")
 
